@@ -291,6 +291,8 @@ GeometryInfo Cell::convex_hull(Map<GeometryInfo>& cache) const {
 
     GeometryInfo info = cache.get(name);
     info.convex_hull_valid = true;
+    // The hull is appended to the array: drop the points of a previous calculation
+    info.convex_hull.count = 0;
     gdstk::convex_hull(points, info.convex_hull);
     points.clear();
     cache.set(name, info);
